@@ -502,11 +502,12 @@ fn do_history(rep: &mut Report, sc: &Scratch, file: &[u8], ops: &[Op], use_git: 
                 }
             }
             if class.is_none() && matches!(op, Op::NewSection(..) | Op::Set(..) | Op::Push(..)) {
-                // the previous text ends in a value that is continued onto a last, empty line
+                // the previous text ends in a value that is continued onto a last, EMPTY line (`k = a\<LF>` at the
+                // very end; a continuation with text on its last line is NOT in this class and is judged)
                 let ends_in_continuation = gix_config::parse::Events::from_bytes(&prev_text, None).map_or(false, |evs| {
                     evs.sections.last().map_or(false, |sct| {
                         let mut it = sct.events.iter().rev().filter(|e| !matches!(e, gix_config::parse::Event::Whitespace(_)));
-                        matches!(it.next(), Some(gix_config::parse::Event::ValueDone(v)) if v.iter().all(u8::is_ascii_whitespace))
+                        matches!(it.next(), Some(gix_config::parse::Event::ValueDone(v)) if v.is_empty())
                             && matches!(it.next(), Some(gix_config::parse::Event::Newline(_)))
                             && matches!(it.next(), Some(gix_config::parse::Event::ValueNotDone(_)))
                     })
@@ -736,6 +737,36 @@ fn gen_ops(r: &mut Rng, file: &[u8]) -> Vec<Op> {
     ops
 }
 
+/// the file with a last value that is continued over lines and no final newline
+fn with_trailing_continuation(r: &mut Rng, file: &[u8]) -> Vec<u8> {
+    let mut f = file.to_vec();
+    while matches!(f.last(), Some(b'\n' | b'\r' | b' ' | b'\t')) {
+        f.pop();
+    }
+    let has_section = view_of(&f).map_or(false, |v| !v.secs.is_empty());
+    if !has_section {
+        f = b"[s]".to_vec();
+    }
+    let crlf = f.windows(2).any(|w| w == b"\r\n");
+    let nl: &[u8] = if crlf { b"\r\n" } else { b"\n" };
+    f.extend_from_slice(nl);
+    f.extend_from_slice(pick_bytes(r, &["\tcont = x\\", "cont=x y\\", "  cont = \"q\\"]).as_slice());
+    f.extend_from_slice(nl);
+    f.extend_from_slice(pick_bytes(r, &["  y z", "y", "\ty\\"]).as_slice());
+    if f.ends_with(b"\\") {
+        f.extend_from_slice(nl);
+        f.extend_from_slice(b" last");
+    }
+    if f.windows(2).any(|w| w == b"\"q") && !f.ends_with(b"\"") {
+        f.push(b'"');
+    }
+    if view_of(&f).is_some() {
+        f
+    } else {
+        file.to_vec()
+    }
+}
+
 fn corpus() -> Vec<(Vec<u8>, Vec<Op>)> {
     let b = |x: &str| x.as_bytes().to_vec();
     let sb = |x: &str| Some(x.as_bytes().to_vec());
@@ -775,6 +806,14 @@ fn corpus() -> Vec<(Vec<u8>, Vec<Op>)> {
         (b("[a]\nk\nk = a\\\n  b\nk=\n"), vec![Op::MvSetAll(b("a"), None, b("k"), b("z"))]),
         (b("[a]\nk\nk = a\\\n  b\nk=\n"), vec![Op::MvDeleteAll(b("a"), None, b("k"))]),
         (b("[a]\nk=1\n"), vec![Op::MvSetAll(b("a"), None, b("j"), b("z")), Op::MvSetAll(b("b"), None, b("k"), b("z")), Op::MvSetAll(b("a"), sb("s"), b("k"), b("z"))]),
+        // the last value of the section is continued over lines and the file has no final newline
+        (b("[a]\nk = a\\\n b"), vec![Op::Push(b("a"), None, b("j"), sb("w"))]),
+        (b("[a]\nk = a\\\n b"), vec![Op::Set(b("a"), None, b("j"), b("w"))]),
+        (b("[a]\nk = a\\\n b"), vec![Op::NewSection(b("c"), None), Op::Set(b("c"), None, b("j"), b("w"))]),
+        (b("[a]\nk = a\\\n b"), vec![Op::Push(b("a"), None, b("j"), None), Op::Push(b("a"), None, b("i"), sb("x"))]),
+        (b("[a]\r\nk = a\\\r\n b\\\r\n c"), vec![Op::Push(b("a"), None, b("j"), sb("w"))]),
+        (b("[a]\n\tk = \"q\\\n r\"  "), vec![Op::Push(b("a"), None, b("j"), sb("w"))]),
+        (b("[a]\nk = a\\\n b\n[b]\nx = 1\\\n 2"), vec![Op::Push(b("a"), None, b("j"), sb("w")), Op::Push(b("b"), None, b("j"), sb("w"))]),
     ]
 }
 
@@ -801,8 +840,28 @@ fn main() {
     let git_every = if args.thorough { 30 } else { 14 };
     for i in 0..n {
         let st = Style { git_ok: i % 5 != 0, plain_ws: i % 2 == 0 };
-        let file = gen_config(&mut r, st);
-        let ops = gen_ops(&mut r, &file);
+        let mut file = gen_config(&mut r, st);
+        // every 6th file: its last section ends in a value continued over lines, without a final newline,
+        // and the history starts by adding to that section
+        let trailing = i % 6 == 3;
+        if trailing {
+            file = with_trailing_continuation(&mut r, &file);
+        }
+        let mut ops = gen_ops(&mut r, &file);
+        if trailing {
+            let (secs, _) = existing(&file);
+            if let Some((name, sub)) = secs.last() {
+                if !name.contains(&b'.') && name.is_ascii() {
+                    let key = pick_bytes(&mut r, &["j", "newkey", "cont"]);
+                    let first = match r.below(4) {
+                        0 => Op::Set(name.clone(), sub.clone(), key, gen_value(&mut r)),
+                        1 => Op::Push(name.clone(), sub.clone(), key, None),
+                        _ => Op::Push(name.clone(), sub.clone(), key, Some(gen_value(&mut r))),
+                    };
+                    ops.insert(0, first);
+                }
+            }
+        }
         if ops.is_empty() {
             continue;
         }
